@@ -14,3 +14,63 @@ pub mod c20;
 pub mod c19;
 pub mod mu;
 pub mod nat;
+
+use crate::sup::{Property, Verdict};
+
+/// The model-engine properties a byte-level fuzzer can drive through their own generators
+/// (libFuzzer target `model_tape`); the native-oracle properties need the signal machinery and
+/// C20 its exec'd twin, so they stay with the supervisor.
+pub const TAPE_FUZZABLE: [&str; 11] = ["C07", "C08", "C09", "C10", "C11", "C12", "C13", "C14", "C15", "C17", "C18"];
+
+pub fn shape_of(id: &str) -> Option<crate::tape::Shape> {
+    Some(match id {
+        "C07" => c07::C07.shape(),
+        "C08" => c08::C08.shape(),
+        "C09" => c09::C09::new().shape(),
+        "C10" => c10::C10.shape(),
+        "C11" => c11::C11.shape(),
+        "C12" => c12::C12.shape(),
+        "C13" => c13::C13.shape(),
+        "C14" => c14::C14.shape(),
+        "C15" => c15::C15.shape(),
+        "C17" => c17::C17.shape(),
+        "C18" => c18::C18.shape(),
+        _ => return None,
+    })
+}
+
+fn one<P: Property + 'static>(mut p: P) -> Box<dyn FnMut(&[u8])> {
+    p.setup();
+    let kf = crate::kf::KnownFindings::load();
+    Box::new(move |data: &[u8]| {
+        let shape = p.shape();
+        let tape = crate::tape::tape_from_raw(&shape, data);
+        let case = p.decode(&tape);
+        let out = p.exec(&case);
+        if let Verdict::Fail { sig, msg } = out.verdict {
+            if sig.starts_with("HARNESS-FAULT") || kf.match_sig(p.id(), &sig).is_some() {
+                return;
+            }
+            panic!("{} violation {}: {}", p.id(), sig, msg);
+        }
+    })
+}
+
+/// One fuzz iteration function for property `id`: bytes -> tape -> the property's own decode and
+/// exec; a violation (after the known-findings filter) panics, which is what libFuzzer records.
+pub fn fuzz_entry(id: &str) -> Option<Box<dyn FnMut(&[u8])>> {
+    Some(match id {
+        "C07" => one(c07::C07),
+        "C08" => one(c08::C08),
+        "C09" => one(c09::C09::new()),
+        "C10" => one(c10::C10),
+        "C11" => one(c11::C11),
+        "C12" => one(c12::C12),
+        "C13" => one(c13::C13),
+        "C14" => one(c14::C14),
+        "C15" => one(c15::C15),
+        "C17" => one(c17::C17),
+        "C18" => one(c18::C18),
+        _ => return None,
+    })
+}
